@@ -38,12 +38,14 @@ Section Eval.
   Variable labels : label_env.
   Variable macros : macro_env.
 
-  (* eval_with_context.  [fuel] = MACRO_DEPTH_LIMIT - ctx.depth : how many more nested
-     macro bodies may be entered.  [vars = None] models ctx.variables == None. *)
-  Fixpoint eval (fuel : nat) (vars : option var_env) (e : expr) {struct fuel} : res Z :=
-    let fix ev (e : expr) {struct e} : res Z :=
+  (* One macro-nesting level of eval_with_context.  [deeper] evaluates a macro body one level
+     further down; None when ctx.depth has reached the limit. *)
+  Section Level.
+    Variable deeper : option (option var_env -> expr -> res Z).
+
+    Fixpoint ev (vars : option var_env) (e : expr) {struct e} : res Z :=
       match e with
-      | EParen a => ev a
+      | EParen a => ev vars a
       | ENum z => Ok z
       | ELabel l =>
           match labels l with
@@ -58,37 +60,44 @@ Section Eval.
                        end
           | None => err1 "UndefinedVariable" x
           end
-      | EPlus a b => do x <- ev a ; do y <- ev b ; Ok (x + y)
-      | EMinus a b => do x <- ev a ; do y <- ev b ; Ok (x - y)
-      | ETimes a b => do x <- ev a ; do y <- ev b ; Ok (x * y)
+      | EPlus a b => do x <- ev vars a ; do y <- ev vars b ; Ok (x + y)
+      | EMinus a b => do x <- ev vars a ; do y <- ev vars b ; Ok (x - y)
+      | ETimes a b => do x <- ev vars a ; do y <- ev vars b ; Ok (x * y)
       | EDivide a b =>
-          do x <- ev a ; do y <- ev b ;
+          do x <- ev vars a ; do y <- ev vars b ;
           if y =? 0 then err0 "DivisionByZero" else Ok (Z.quot x y)
       | EMacro name args =>
           match macros name with
           | Some (Some d) =>
-              match fuel with
-              | O => err0 "RecursionLimit"
-              | S fuel' =>
+              match deeper with
+              | None => err0 "RecursionLimit"
+              | Some k =>
                   (* arguments are evaluated at the call site, zipped with the parameters *)
                   let fix bind (ps : list string) (az : list expr) (acc : var_env) {struct az}
                       : res var_env :=
                     match ps, az with
                     | p :: ps', a :: az' =>
-                        do v <- ev a ; bind ps' az' (bind_var acc p v)
+                        do v <- ev vars a ; bind ps' az' (bind_var acc p v)
                     | _, _ => Ok acc
                     end in
                   do vs <- bind (em_params d) args [] ;
-                  eval fuel' (Some vs) (em_body d)
+                  k (Some vs) (em_body d)
               end
           | _ => err1 "UnknownMacro" name
           end
-      end in
-    ev e.
+      end.
+  End Level.
+
+  (* eval_with_context.  [fuel] = MACRO_DEPTH_LIMIT - ctx.depth : how many more nested macro
+     bodies may be entered.  [vars = None] models ctx.variables == None. *)
+  Fixpoint eval (fuel : nat) : option var_env -> expr -> res Z :=
+    ev (match fuel with O => None | S f => Some (eval f) end).
 
   (* Expression::labels(macros): labels of the tree, of macro bodies, and of arguments *)
-  Fixpoint elabels (fuel : nat) (e : expr) {struct fuel} : res (list string) :=
-    let fix lb (e : expr) {struct e} : res (list string) :=
+  Section LLevel.
+    Variable deeper : option (expr -> res (list string)).
+
+    Fixpoint lb (e : expr) {struct e} : res (list string) :=
       match e with
       | EParen a => lb a
       | ENum _ | EVar _ => Ok []
@@ -98,10 +107,10 @@ Section Eval.
       | EMacro name args =>
           match macros name with
           | Some (Some d) =>
-              match fuel with
-              | O => err0 "RecursionLimit"
-              | S fuel' =>
-                  do body <- elabels fuel' (em_body d) ;
+              match deeper with
+              | None => err0 "RecursionLimit"
+              | Some k =>
+                  do body <- k (em_body d) ;
                   let fix largs (az : list expr) : res (list string) :=
                     match az with
                     | [] => Ok []
@@ -111,8 +120,11 @@ Section Eval.
               end
           | _ => err1 "UnknownMacro" name
           end
-      end in
-    lb e.
+      end.
+  End LLevel.
+
+  Fixpoint elabels (fuel : nat) : expr -> res (list string) :=
+    lb (match fuel with O => None | S f => Some (elabels f) end).
 End Eval.
 
 (* Expression::replace_label(old, new) -- after the fix: every occurrence, also inside
